@@ -27,4 +27,6 @@ RULES = [
     ("IDX.R3", "builder: sort -> dedup -> enumerate; key = position; keys resolved on the indexed vectors", common_idx.idx_r3),
     ("IDX.R7", "IndexedInstruments is private and written only by the builder", common_idx.idx_r7),
     ("IDX.R8", "sorting uses derived structural Ord/PartialEq (order independence)", common_idx.idx_r8),
+    ("IDX.R9", "IndexedInstruments lookups: first match over the full vector; key <-> value inverses", common_idx.idx_r9),
+    ("IDX.R10", "add_instrument registers the exchange, the instrument and every asset it refers to", common_idx.idx_r10),
 ]
